@@ -2,6 +2,8 @@
 
 package items
 
+import "github.com/goccmack/gocc/internal/ast"
+
 // Harnesses for C18: rune classes of a lexer state form an exact disjoint partition.
 
 var verifHarnesses = map[string]func(){
@@ -10,7 +12,14 @@ var verifHarnesses = map[string]func(){
 	"VerifC18Match": VerifC18Match,
 }
 
-const verifMaxRune = 0x10FFFF
+const verifUnicodeMax = 0x10FFFF
+
+// verifMaxRune bounds every rune of a run (parameter R; default: the whole Unicode range).
+var verifMaxRune rune = verifUnicodeMax
+
+func verifSetRange() {
+	verifMaxRune = rune(verifParam("R", verifUnicodeMax))
+}
 
 // verifWellFormed: sorted, pairwise disjoint, non-empty, inside the Unicode range.
 func verifWellFormed(s []CharRange) bool {
@@ -51,6 +60,7 @@ func verifUnionOfClasses(s []CharRange, a, b rune) bool {
 
 // VerifC18Step: one AddRange from an arbitrary well-formed set (inductive step).
 func VerifC18Step() {
+	verifSetRange()
 	// n (number of classes) and c (capacity of the slice) are case-split by the driver: one
 	// symbolic run per (n, c); everything else is symbolic.
 	n := verifParam("N", 2)
@@ -80,6 +90,7 @@ func VerifC18Step() {
 	}
 	// probe rune
 	x := verifNondetRune("x")
+	verifAssume(0 <= x && x <= verifMaxRune)
 	preMember := verifMember(rs.set, x)
 
 	rs.AddRange(from, to)
@@ -110,9 +121,11 @@ func VerifC18Step() {
 
 // VerifC18Empty: K calls starting from the empty set of NewDisjunctRangeSet.
 func VerifC18Empty() {
+	verifSetRange()
 	K := verifParam("K", 3)
 	rs := NewDisjunctRangeSet()
 	x := verifNondetRune("x")
+	verifAssume(0 <= x && x <= verifMaxRune)
 	want := false
 	for k := 0; k < K; k++ {
 		from, to := verifNondetRune("addfrom"), verifNondetRune("addto")
@@ -129,26 +142,66 @@ func VerifC18Empty() {
 	verifCover("end")
 }
 
-// VerifC18Match: an item either matches a whole class or none of it.
+// verifRangeItem builds a basic item whose expected symbol is the range f-t (or the literal f).
+func verifRangeItem(f, t rune, lit bool) (*Item, ast.LexTNode) {
+	var term ast.LexTerm
+	var tn ast.LexTNode
+	if lit {
+		l := &ast.LexCharLit{Val: f}
+		term, tn = l, l
+	} else {
+		r := &ast.LexCharRange{From: &ast.LexCharLit{Val: f}, To: &ast.LexCharLit{Val: t}}
+		term, tn = r, r
+	}
+	alt := &ast.LexAlt{Terms: []ast.LexTerm{term}}
+	return &Item{pos: &itemPos{stack: []stackElement{{alt, 0}}}}, tn
+}
+
+// VerifC18Match: an item either matches a whole class or none of it. The state's classes are
+// an arbitrary well-formed set in which the first item's range [a,b] is already a union of
+// classes; a second item's symbol is then added through AddLexTNode (the path ItemSet uses).
 func VerifC18Match() {
+	verifSetRange()
 	n := verifParam("N", 2)
-	M := n
-	backing := make([]CharRange, M+3)
-	for i := 0; i < M; i++ {
+	backing := make([]CharRange, n+3)
+	for i := 0; i < n; i++ {
 		backing[i] = CharRange{verifNondetRune("from"), verifNondetRune("to")}
 	}
 	rs := &DisjunctRangeSet{set: backing[:n]}
 	verifAssume(verifWellFormed(rs.set))
+	gi, gj := verifNondetInt("gi"), verifNondetInt("gj")
+	verifAssume(0 <= gi && gi <= gj && gj < n)
+	a, b := rs.set[gi].From, rs.set[gj].To
+	for k := 0; k+1 < n; k++ {
+		if gi <= k && k < gj {
+			verifAssume(rs.set[k].To+1 == rs.set[k+1].From)
+		}
+	}
+	lit1 := verifNondetBool("lit1")
+	if lit1 {
+		verifAssume(a == b)
+	}
+	item1, _ := verifRangeItem(a, b, lit1)
+
 	from, to := verifNondetRune("addfrom"), verifNondetRune("addto")
 	verifAssume(0 <= from && from <= to && to <= verifMaxRune)
-	rs.AddRange(from, to)
-	x := verifNondetRune("x")
+	lit2 := verifNondetBool("lit2")
+	if lit2 {
+		verifAssume(from == to)
+	}
+	item2, sym2 := verifRangeItem(from, to, lit2)
+	rs.AddLexTNode(sym2)
+
 	k := verifNondetInt("k")
 	verifAssume(0 <= k && k < rs.Size())
 	cls := rs.Range(k)
+	x := verifNondetRune("x")
+	verifAssume(0 <= x && x <= verifMaxRune)
 	verifAssume(cls.From <= x && x <= cls.To)
-	// the item that expects [from,to] matches class k iff it matches every rune of it
-	whole := from <= cls.From && cls.To <= to
-	verifAssert(whole == (from <= x && x <= to), "a class is matched as a whole or not at all")
+	verifAssert(item1.match(cls) == (a <= x && x <= b), "earlier item matches a class as a whole or not at all")
+	verifAssert(item2.match(cls) == (from <= x && x <= to), "new item matches a class as a whole or not at all")
+	if item1.match(cls) && item2.match(cls) {
+		verifCover("class shared by both items")
+	}
 	verifCover("end")
 }
